@@ -635,7 +635,7 @@ def impl_parse(ctx, rec, prior):
     if any(v < 0 for v in delta.values()):
         return {"error": "observations of other reads were removed", "delta": canon_obs_counter(+delta)}
     return {"obs": canon_obs_counter(+delta), "dump": [[int(p), op] for p, op in dump],
-            "phase": [[int(p), op] for p, op in s.phases[rec["name"]].items()], "read_pos": [int(x) for x in rp]}
+            "phase": [[int(p), op] for p, op in s.phases.get(rec["name"], {}).items()], "read_pos": [int(x) for x in rp]}
 
 
 def run_parse_level(chk, ctxs, n):
